@@ -66,6 +66,11 @@ def abscissae(mode, n):
     return base[:n]
 
 
+def decoy():
+    from mc.lib import decoy as decoy_mod
+    decoy_mod.functions()
+
+
 def BOUND(tier):
     return {'quick': 'words of length 2..3 over the full alphabet and '
                      'length 4 over the on-grid/ulp symbols, 5 steps x 3 '
@@ -88,7 +93,7 @@ def word_space(step, mode, length, tier, reduced=False):
         return {'kind': 'word', 'step': step, 'xmode': mode, 'y': ys}
     return Space('regrid/step=%g/x=%s/len=%d%s' % (
         step, mode, length, '/reduced' if reduced else ''), size, decode,
-        '%d symbols' % len(alpha))
+        '%d symbols' % len(alpha), decoy_every=1024)
 
 
 def spaces(tier):
